@@ -94,8 +94,18 @@ Theorem C14_broadcast_toggle : forall e loc old a t,
 Proof. exact toggle_set. Qed.
 
 (* exactly one undo event carrying (address, true previous value, new value)
-   iff the stored value changed *)
-Theorem C14_undo_iff : forall e loc old key mka mkb v r st o,
+   iff the stored value changed.
+   PARTIAL - side condition inside [numeric_set] (constructor NS_arrayI): for the
+   element callback of rArrayI the STORED value [old] must lie in the char range
+   -128..127 ([char_range old]).  On an rArrayI port over elements wider than
+   char the full statement is false of the current code
+   (C14_arrayI_wide_element_refuted, finding class arrayI-wide-element); for
+   every other kind [numeric_set] puts no condition on [old] beyond "no NaN"
+   for floats, and the statement is the full one.  C14_clamp, C14_in_range and
+   C14_broadcast_new go through the same [numeric_set] but do not depend on
+   [old]: the value stored and broadcast by rArrayI is the clamped incoming
+   value whatever the element held (rArrayICb_elem_stored). *)
+Theorem C14_undo_iff_partial : forall e loc old key mka mkb v r st o,
   numeric_set e loc old key mka mkb v r -> r = Some (st, o) ->
   undo_events o = if key old =? key st then [] else [undo_event loc mka old st].
 Proof. exact numeric_undo_iff. Qed.
@@ -284,7 +294,13 @@ Proof. exact run_inv. Qed.
    the port afterwards restores the stored values, the new-value message
    stores the new value again - from the state before and from the state
    after.  The stored values stay inside the declared range ([stored_stable]
-   is an invariant), so this holds along any history. *)
+   is an invariant), so this holds along any history that STARTS in such a
+   state.  Side condition to read in [stored_stable] ([stable]): for rParam and
+   rArrayI every stored value is a char (-128..127).  For rArrayI over elements
+   wider than char that is a real restriction on the initial contents (an
+   element holding 261: the event carries 5, C14_arrayI_wide_element_refuted);
+   it is the premise [char_range old] of NS_arrayI reached through
+   conf_numeric. *)
 Theorem C14_undo_event_replays : forall k e loc m st args st' outs,
   undo_kind k -> env_ok e k ->
   bounds_ordered (kind_key k) (p_min e) (p_max e) -> map_in_range e ->
@@ -311,7 +327,7 @@ Proof. exact replays_nonvacuous. Qed.
 (* rCOptionCb(getcode, setcode), the option callback over a pair of
    expressions: with a setter that stores what it is given it is rOptionCb on
    the value of getcode - clamp, undo event, broadcast and symbol translation
-   are those of C14_clamp / C14_undo_iff / C14_broadcast_new /
+   are those of C14_clamp / C14_undo_iff_partial / C14_broadcast_new /
    C14_option_symbol - and setcode runs on every set message *)
 Theorem C14_coption_as_option : forall S (get : S -> Z) (set : S -> Z -> S),
   (forall s v, get (set s v) = v) ->
